@@ -31,6 +31,7 @@ DECIDED = [
     "C08.5 provenance of get_location values",
     "C08.6 access parameters: only nets_* keys, suffixed by the producing worker, unknown producer raises",
     "C08.7 run_test_task spawns with the started worker's spawner/session; missing worker or spawner raises first",
+    "C08.8 a worker's cached remote session is keyed by host and port of its own login",
 ]
 NOT_DECIDED = ["which worker produces a state (schedule)"]
 MIN_INSTANCES = 30
@@ -118,6 +119,38 @@ def run_task_rule(ctx: Ctx, rule: str) -> None:
                "" if ok_h else f"the spawner handle of the test task changed: {handles}")
 
 
+def session_identity(ctx: Ctx, rule: str) -> None:
+    """A worker's cached session is keyed by everything that identifies its connection end point."""
+    fref = "cartgraph/worker.py:TestWorker.get_session"
+    fn = ctx.repo.func(fref)
+    ctx.touch(fref)
+    logins = [c for c in calls_in(fn.node) if call_name(c) == "wait_for_login"]
+    ok = len(logins) == 1
+    detail = {}
+    if ok:
+        used = [a.slice.value for a in logins[0].args if isinstance(a, ast.Subscript) and ast.unparse(a.value) == "self.params" and isinstance(a.slice, ast.Constant)]
+        endpoint = {k for k in used if k in ("nets_shell_host", "nets_shell_port")}
+        gets = [c for c in calls_in(fn.node) if call_name(c) == "get" and ast.unparse(c.func.value) == "cache"]
+        puts = [s for s in ast.walk(fn.node) if isinstance(s, ast.Assign) and isinstance(s.targets[0], ast.Subscript) and ast.unparse(s.targets[0].value) == "cache"]
+        ok = len(gets) == 1 and len(puts) == 1 and ast.unparse(gets[0].args[0]) == ast.unparse(puts[0].targets[0].slice)
+        if ok:
+            keyname = ast.unparse(gets[0].args[0])
+            defs = [s for s in ast.walk(fn.node) if isinstance(s, ast.Assign) and ast.unparse(s.targets[0]) == keyname]
+            keyreads = set()
+            for d in defs:
+                for n in ast.walk(d.value):
+                    if isinstance(n, ast.Subscript) and ast.unparse(n.value) == "self.params" and isinstance(n.slice, ast.Constant):
+                        keyreads.add(n.slice.value)
+            detail = {"login_endpoint": sorted(endpoint), "cache_key_reads": sorted(keyreads)}
+            ok = len(defs) == 1 and endpoint == {"nets_shell_host", "nets_shell_port"} and endpoint <= keyreads
+            ok = ok and ast.unparse(puts[0].value) == "session"
+    ctx.record(rule, "PROV", fref, "the session cache key contains host AND port of the login (workers behind one gateway differ only by port)", ok, detail,
+               "" if ok else f"workers that differ only in their shell port share one cached session: tests and state scans of one run in another's environment ({detail})")
+    cache = [s for c in [ctx.repo.cls("cartgraph/worker.py:TestWorker")] for s in c.node.body if isinstance(s, ast.Assign) and ast.unparse(s.targets[0]) == "_session_cache"]
+    ctx.record(rule + "c", "CONST", "cartgraph/worker.py:TestWorker", "_session_cache is one class-level dict shared by all workers (hence the key must identify the worker's end point)",
+               len(cache) == 1 and ast.unparse(cache[0].value) == "{}", {}, "" if len(cache) == 1 else "the session cache changed")
+
+
 def foreign_worker_rows(ctx: Ctx, rule: str) -> None:
     N.run_decision_table(ctx, rule + "r")
     N.clean_decision_table(ctx, rule + "c")
@@ -135,6 +168,7 @@ def run(ctx: Ctx) -> None:
     ctx.call(pull_locations_rule, "5")
     ctx.call(access_params_rule, "6")
     ctx.call(run_task_rule, "7")
+    ctx.call(session_identity, "8")
     ctx.call(T.t_o1, "5o/T.O1")
 
 
@@ -149,5 +183,6 @@ MUTANTS = [
      "        if test_node.is_occupied(worker):\n            return\n        worker = test_node.finished_worker or worker\n        test_node.started_worker = worker\n        if test_node.should_clean(worker):", "1/T.W1"),
     ("pick-other-workers-nodes", NODE, "            n\n            for n in self.cleanup_nodes\n            if worker.id in n.params[\"name\"] or n.is_flat()\n        ]", "            n\n            for n in self.cleanup_nodes\n        ]", "3pc"),
     ("session-of-finished-worker", R, "task.spawner_handle = node.started_worker.get_session()", "task.spawner_handle = node.finished_worker.get_session()", "7c"),
+    ("session-key-host-only", "cartgraph/worker.py", "address = self.params[\"nets_shell_host\"] + \":\" + self.params[\"nets_shell_port\"]", "address = self.params[\"nets_shell_host\"]", "8"),
     ("P-fstring-key", NODE, "self.params[f\"{key}{source_suffix}\"] = worker.params[key]", "self.params[key + source_suffix] = worker.params[key]", None),
 ]
